@@ -232,7 +232,7 @@ Tag(prop, S) == {<<prop, m>> : m \in S}
 (* usable")                                                                *)
 Lift(c, V) == V \cup UNION { {<<p, "continuation: " \o v[1] \o ": " \o v[2]>> : v \in V} : p \in c.subprops }
 
-Report(V) == \A v \in V : PrintT(<<"VIOL", v[1], l, ctx.run, ctx.script, v[2]>>)
+Report(V) == \A v \in V : PrintT("VIOL|" \o v[1] \o "|" \o ToString(l) \o "|" \o ToString(ctx.run) \o "|" \o ctx.script \o "|" \o v[2])
 
 -----------------------------------------------------------------------------
 (* Actions, one per event kind *)
@@ -333,7 +333,11 @@ TrCrash ==
               LET x == StAbs(R.st, c.nq)
                   asg2 == IF incall /\ c.cur.op \in {"create", "delete"} /\ c.cur.q >= 0 THEN [c.asg EXCEPT ![c.cur.q] = -1] ELSE c.asg
                   (* positions of an in-flight append that was recovered count as assigned *)
-                  asg3 == [q \in QIds(c) |-> IF x[q].a /\ Len(x[q].recs) > 0 THEN QmMax(asg2[q], RPos(x[q].recs[Len(x[q].recs)])) ELSE asg2[q]]
+                  (* C04 speaks about crashes under a flush-per-operation policy only: elsewhere a crash *)
+                  (* legitimately loses unpersisted appends, and positions restart from what survived   *)
+                  asg3 == IF AlwaysPolicy(c.policy) /\ R.model = "process"
+                          THEN [q \in QIds(c) |-> IF x[q].a /\ Len(x[q].recs) > 0 THEN QmMax(asg2[q], RPos(x[q].recs[Len(x[q].recs)])) ELSE asg2[q]]
+                          ELSE [q \in QIds(c) |-> IF x[q].a THEN x[q].next - 1 ELSE -1]
                   sub == [c EXCEPT !.qm = x, !.asg = asg3, !.cur = NoCall,
                                    !.pendP = << [st |-> x, op |-> NoCall] >>, !.pendW = << [st |-> x, op |-> NoCall] >>,
                                    !.crashfree = FALSE, !.sub = TRUE, !.subprops = props,
@@ -367,6 +371,6 @@ TraceSpec == TraceInit /\ [][TraceNext]_tvars
 (* Acceptance: every line was consumed.  The first unmatched line is printed. *)
 TraceAccepted ==
   LET d == TLCGet("stats").diameter IN
-    IF d - 1 = NLines THEN PrintT(<<"ACCEPTED", NLines>>)
-    ELSE PrintT(<<"UNMATCHED", d, IF d <= NLines THEN Rec[d].ev ELSE "eof">>) /\ FALSE
+    IF d - 1 = NLines THEN PrintT("ACCEPTED|" \o ToString(NLines))
+    ELSE PrintT("UNMATCHED|" \o ToString(d) \o "|" \o (IF d <= NLines THEN Rec[d].ev ELSE "eof")) /\ FALSE
 =============================================================================
